@@ -374,6 +374,25 @@ func DominatingEdges(b *ssa.BasicBlock) []Edge {
 	return out
 }
 
+// NilAt reports whether value v is known nil in block b: b is dominated by the nil edge of a nil comparison of v.
+func NilAt(v ssa.Value, b *ssa.BasicBlock) bool {
+	for _, e := range DominatingEdges(b) {
+		nc, ok := AsNilCompare(e.If.Cond)
+		if !ok || !sameValue(nc.X, v) {
+			continue
+		}
+		// Ne: cond is v != nil: nil edge is the false successor (1); Eq: true successor (0)
+		nilSucc := 0
+		if nc.Ne {
+			nilSucc = 1
+		}
+		if e.Succ == nilSucc {
+			return true
+		}
+	}
+	return false
+}
+
 // NonNilAt reports whether value v is known non-nil in block b because b is dominated by the
 // non-nil edge of a nil comparison of v (or of a value that resolves to the same leaves).
 func NonNilAt(v ssa.Value, b *ssa.BasicBlock) bool {
